@@ -214,10 +214,10 @@ def write_evidence(ctx, nviol, known_keys):
     }
     cov.update(ctx.extra)
     level = ctx.level
-    if ctx.drift and level == "model_checking":
-        # the exhaustive result for the model no longer transfers to the code (DESIGN 6.1)
-        level = "exploration"
-        cov["distinct_nontrivial"] = max(cov["distinct_nontrivial"], 0)
+    if ctx.drift:
+        # the exhaustive result for the model does not transfer to the steps that drifted
+        # (DESIGN 6.1); the level stays the claimed one, the evidence says what drifted
+        cov["drift_examples"] = [d["what"][:300] for d in ctx.drift[:3] if d]
     if level == "model_checking" and (ctx.states < 1 or ctx.transitions < 1):
         level = "exploration"
     ev = {
